@@ -87,8 +87,8 @@ theorem dropWhile_eq_nil_of_all {α} (p : α → Bool) (l : List α) (h : ∀ x 
   have := dropWhile_append_of_all p l [] h
   simpa using this
 
-theorem splitCall_none_of_no_paren (e : Str) (h : '(' ∉ e) : splitCall e = none := by
-  unfold splitCall
+theorem splitCallRaw_none_of_no_paren (e : Str) (h : '(' ∉ e) : splitCallRaw e = none := by
+  unfold splitCallRaw
   split
   · rfl
   · rename_i c rest heq
@@ -108,9 +108,9 @@ theorem upToLast_snoc (c : Char) (a : Str) : upToLast c (a ++ [c]) = a ++ [c] :=
   simp [upToLast]
 
 /-- a call `ident(args)` on one line is split at its first parenthesis -/
-theorem splitCall_call (ident args : Str) (hne : ident ≠ []) (hp : '(' ∉ ident) (hn : '\n' ∉ ident)
+theorem splitCallRaw_call (ident args : Str) (hne : ident ≠ []) (hp : '(' ∉ ident) (hn : '\n' ∉ ident)
     (hna : '\n' ∉ args) :
-    splitCall (ident ++ '(' :: args ++ [')']) = some (ident, '(' :: args ++ [')']) := by
+    splitCallRaw (ident ++ '(' :: args ++ [')']) = some (ident, '(' :: args ++ [')']) := by
   cases ident with
   | nil => exact absurd rfl hne
   | cons c i =>
@@ -127,7 +127,7 @@ theorem splitCall_call (ident args : Str) (hne : ident ≠ []) (hp : '(' ∉ ide
           · intro e; exact hna (e ▸ h)
         · rw [h]; decide
       simpa using this
-    unfold splitCall
+    unfold splitCallRaw
     rw [takeWhile_eq_self_of_all _ _ hall]
     have hi : ∀ x ∈ i, (x != '(') = true := by
       intro x hx
@@ -144,6 +144,40 @@ theorem splitCall_call (ident args : Str) (hne : ident ≠ []) (hp : '(' ∉ ide
     cases hb : args ++ [')'] with
     | nil => simp at hb
     | cons b bs => simp
+
+theorem splitCall_none_of_no_paren (e : Str) (h : '(' ∉ e) : splitCall e = none := by
+  unfold splitCall
+  split
+  · rfl
+  · exact splitCallRaw_none_of_no_paren e h
+
+/-- a one-line entry that ends with `)` passes the `$` of the anchored regex -/
+theorem anchoredOk_call (ident args : Str) (hn : '\n' ∉ ident) (hna : '\n' ∉ args) :
+    anchoredOk (ident ++ '(' :: args ++ [')']) = true := by
+  have hall : ∀ x ∈ ident ++ '(' :: args ++ [')'], (x != '\n') = true := by
+    intro x hx
+    simp only [List.mem_append, List.mem_cons, List.not_mem_nil, or_false] at hx
+    have : x ≠ '\n' := by
+      rcases hx with (h | h) | h
+      · intro e; subst e; exact hn h
+      · rcases h with h | h
+        · rw [h]; decide
+        · intro e; exact hna (e ▸ h)
+      · rw [h]; decide
+    simpa using this
+  unfold anchoredOk
+  rw [takeWhile_eq_self_of_all _ _ hall]
+  have hl : ('(' :: (args ++ [')'])).getLast? = some ')' := by
+    show (('(' :: args) ++ [')']).getLast? = some ')'
+    rw [List.getLast?_append]; simp
+  simp [hl]
+
+theorem splitCall_call (ident args : Str) (hne : ident ≠ []) (hp : '(' ∉ ident) (hn : '\n' ∉ ident)
+    (hna : '\n' ∉ args) :
+    splitCall (ident ++ '(' :: args ++ [')']) = some (ident, '(' :: args ++ [')']) := by
+  unfold splitCall
+  rw [anchoredOk_call ident args hn hna, splitCallRaw_call ident args hne hp hn hna]
+  simp
 
 /-! ### evaluation -/
 
